@@ -182,6 +182,8 @@ type ConvReport struct {
 	Skipped     string
 	mu          sync.Mutex
 	Cut         int
+	// PassReplay: native replay material of one passing path (translator validation)
+	PassReplay *ReplayInfo
 }
 
 // PathCtx is what a property check sees on one path.
@@ -454,8 +456,25 @@ func (d *Driver) exploreOne(cv *Conv, check CheckFn, opt ExploreOpt) *ConvReport
 		}
 		rep.mu.Lock()
 		rep.Cut += pc.SB.Cut
+		nf := len(rep.Findings)
 		rep.mu.Unlock()
 		check(pc)
+		rep.mu.Lock()
+		wantTV := rep.PassReplay == nil && len(rep.Findings) == nf && pc.Panic == nil && r.Steps > 20
+		rep.mu.Unlock()
+		if wantTV {
+			if m, ok := r.Witness(nil); ok {
+				func() {
+					defer func() { recover() }()
+					ri := BuildReplay(pc, m)
+					if ri.Unsupported == "" {
+						rep.mu.Lock()
+						rep.PassReplay = ri
+						rep.mu.Unlock()
+					}
+				}()
+			}
+		}
 	})
 	rep.Stats = stats
 	if len(ex.Fatal) > 0 {
